@@ -143,9 +143,18 @@ int LLVMFuzzerTestOneInput(const uint8_t *data, size_t size)
         return 0;
     chunks = data + 1;
     i = 1 + nchunks;
-    while (i < size && slen + 600 < sizeof(stream)) {
+    while (i < size && slen + 3000 < sizeof(stream)) {
         uint8_t op = data[i++];
-        if (op < 200) {
+        if (op >= 240 && i < size) {
+            /* an awaited-looking reply / password whose text is far longer than any output buffer */
+            static const char *LONGS[] = {"-1 X bot.ex %x_%x :NO ", "-1 X ipr.ex %x_%x :MORE ", "-1 X login.ex %x_%x :AGAIN ", "-1 X comb.ex %x_%x :OK "};
+            int id = data[i++] % 4 + 1;
+            unsigned ser = (i < size) ? data[i++] % 6 : 1;
+            size_t fill = 900 + ((i < size) ? data[i++] : 0) * 5, k;
+            slen += snprintf(stream + slen, 64, LONGS[op % 4], id, ser);
+            for (k = 0; k < fill && slen + 8 < sizeof(stream); k++)
+                stream[slen++] = 'A' + (char)(k % 23);
+        } else if (op < 200) {
             const char *t = TEMPLATES[op % NTEMPL];
             int id = (i < size) ? data[i++] % 4 + 1 : 1;
             unsigned ser = (i < size) ? data[i++] % 6 : 1;
